@@ -347,7 +347,7 @@ def _parse_http_response(data, method):
     return Resp(code, hd, body)
 
 
-def socket_request(sockpath, method, target, headers=None, body=b"", timeout=30.0, raw_target=None):
+def socket_request(sockpath, method, target, headers=None, body=b"", timeout=30.0, raw_target=None, split_pause=None):
     headers = dict(headers or {})
     t = raw_target if raw_target is not None else target
     if isinstance(t, str):
@@ -365,7 +365,14 @@ def socket_request(sockpath, method, target, headers=None, body=b"", timeout=30.
     s.settimeout(timeout)
     try:
         s.connect(sockpath)
-        s.sendall(req)
+        if split_pause and len(body) > 1:
+            # a slow upload: the head and the first half of the body, a pause, then the rest (the server's read sees a short read)
+            cut = len(req) - len(body) + len(body) // 2
+            s.sendall(req[:cut])
+            time.sleep(split_pause)
+            s.sendall(req[cut:])
+        else:
+            s.sendall(req)
         chunks = []
         while True:
             try:
@@ -554,7 +561,7 @@ class AioWorld:
         return stores_fingerprint(self.root)
 
     def request(self, method, target, headers=None, body=b"", raw_target=None):
-        return socket_request(self.sock, method, target, headers, body, raw_target=raw_target)
+        return socket_request(self.sock, method, target, headers, body, raw_target=raw_target, split_pause=getattr(self, "slow_body", None))
 
 
 _start_lock = threading.Lock()
@@ -640,4 +647,4 @@ class ProcWorld:
         return ""
 
     def request(self, method, target, headers=None, body=b"", raw_target=None):
-        return socket_request(self.sock, method, target, headers, body, raw_target=raw_target)
+        return socket_request(self.sock, method, target, headers, body, raw_target=raw_target, split_pause=getattr(self, "slow_body", None))
